@@ -40,12 +40,16 @@ Fixpoint add_closure (fuel : nat) (sc : schema) (l : list nat) : list nat :=
   | S f => add_closure f sc (uniq (l ++ flat_map (fun a => s_add (sget sc a)) l))
   end.
 
-(* R4: nothing changes without a justification *)
-Definition candidates (sc : schema) (mt : mut_type) (called s s' : list nat) : list nat :=
-  add_closure (length sc) sc (uniq ((match mt with MRemove => [] | _ => called end) ++ s ++ s')).
+(* R4: nothing changes without a justification.
+   A gained state must be called (Add/Set) or reachable through Add relations
+   from a called or previously active state; a lost state must be called for
+   removal, left out of a Set, Removed by a state of that reachable set or of
+   the new active set, or have lost a Require. *)
+Definition candidates (sc : schema) (mt : mut_type) (called s : list nat) : list nat :=
+  add_closure (length sc) sc (uniq ((match mt with MRemove => [] | _ => called end) ++ s)).
 
 Definition gain_justified (sc : schema) (mt : mut_type) (called s s' : list nat) (g : nat) : bool :=
-  mem g (candidates sc mt called s s').
+  mem g (candidates sc mt called s).
 
 Definition loss_justified (sc : schema) (mt : mut_type) (called s s' : list nat) (l : nat) : bool :=
   match mt with
@@ -53,7 +57,7 @@ Definition loss_justified (sc : schema) (mt : mut_type) (called s s' : list nat)
   | MSet => negb (mem l called)
   | MAdd => false
   end
-  || existsb (fun c => mem l (s_remove (sget sc c))) (candidates sc mt called s s')
+  || existsb (fun c => mem l (s_remove (sget sc c))) (candidates sc mt called s ++ s')
   || negb (forallb (fun r => mem r s') (s_require (sget sc l))).
 
 Definition r4_gain_ok sc mt called s s' : bool :=
